@@ -207,8 +207,27 @@ func (rn *runner) corpusPreBlock() {
 		return
 	}
 	w := rn.w
-	m, _ := w.msgPublish(1, 4, 2)
-	w.queue("da-publish", 1, 3_000_000, m)
+	{
+		ctx := w.h.Ctx()
+		p, err := w.h.App.DaKeeper.Params.Get(ctx)
+		if err != nil {
+			panic(err)
+		}
+		// unchallenged items are verified after 3 s and stay in the store for a minute
+		p.ChallengeThreshold, p.ReplicationFactor, p.SlashEpoch = "1", "5", 7
+		p.ChallengePeriod, p.ProofPeriod = 3*time.Second, 4*time.Second
+		p.RejectedRemovalPeriod, p.VerifiedRemovalPeriod = 30*time.Second, 60*time.Second
+		if err := p.Validate(); err != nil {
+			panic(err)
+		}
+		if err := w.h.App.DaKeeper.Params.Set(ctx, p); err != nil {
+			panic(err)
+		}
+	}
+	for _, n := range []int{4, 2, 6} {
+		m, _ := w.msgPublish(1, n, n/2)
+		w.queue("da-publish", 1, 3_000_000, m)
+	}
 	rn.blockCase(time.Second, nil, "corpus:preblock:publish")
 	for k := 0; k < 4 && !rn.dead; k++ {
 		rn.blockCase(time.Second, rn.metadataEntries(), "corpus:preblock:entries")
@@ -217,9 +236,16 @@ func (rn *runner) corpusPreBlock() {
 	// response exceeds MaxTxBytes and CometBFT refuses the proposal)
 	for k := 0; k < 12 && !rn.dead; k++ {
 		if vs, _ := w.h.App.DaKeeper.GetSpecificStatusData(w.h.Ctx(), datypes.Status_STATUS_VERIFIED); len(vs) > 0 {
-			for j := 0; j < 6; j++ {
+			for j := 0; j < 4; j++ {
 				rn.proposalCase("corpus:proposal:verified-item")
 			}
+			// candidates + metadata section fill the budget to within -12 .. +12 bytes
+			for d := int64(-12); d <= 12; d++ {
+				dd := d
+				rn.propDelta = &dd
+				rn.proposalCase(fmt.Sprintf("corpus:proposal:fill%+d", -d))
+			}
+			rn.propDelta = nil
 			break
 		}
 		rn.blockCase(2*time.Second, nil, "corpus:preblock:wait-verified")
@@ -323,7 +349,52 @@ func (rn *runner) corpusParams() {
 	}
 }
 
+//  10. epochs whose gauges all count zero (every vote has weight 0): the begin blocker must return
+//     before it divides by the total count; several such epochs in a row with bond coins in the
+//     fee collector (minute epochs mint in between), then a normal epoch
+func (rn *runner) corpusZeroGauges() {
+	rn.fresh("corpus:zero-gauges")
+	if rn.dead {
+		return
+	}
+	w := rn.w
+	ctx := w.h.Ctx()
+	p, err := w.h.App.LiquidityincentiveKeeper.Params.Get(ctx)
+	if err != nil {
+		panic(err)
+	}
+	p.EpochBlocks, p.StakingRewardRatio = 1, "0.5"
+	if err := w.h.App.LiquidityincentiveKeeper.Params.Set(ctx, p); err != nil {
+		panic(err)
+	}
+	// every stored vote is replaced by a vote of weight zero (votes persist until replaced)
+	votes, err := w.h.App.LiquidityincentiveKeeper.GetAllVotes(ctx)
+	if err != nil {
+		panic(err)
+	}
+	for _, v := range votes {
+		a := indexOfAcct(w, v.Sender)
+		w.queue("vote-gauge", a, 1_000_000, w.msgVoteGauge(a, map[uint64]string{0: "0", uint64(1 + a%2): "0"}))
+	}
+	rn.blockCase(time.Second, nil, "corpus:zero-gauges:votes")
+	for k := 0; k < 6 && !rn.dead; k++ {
+		rn.blockCase(emit.Pick(rn.r, 61*time.Second, time.Second), nil, "corpus:zero-gauges:epochs")
+	}
+	if rn.dead {
+		return
+	}
+	w.queue("vote-gauge", 0, 1_000_000, w.msgVoteGauge(0, map[uint64]string{0: "0.7", 1: "0"}))
+	rn.blockCase(time.Second, nil, "corpus:zero-gauges:normal-vote")
+	for k := 0; k < 3 && !rn.dead; k++ {
+		rn.blockCase(61*time.Second, nil, "corpus:zero-gauges:normal-epochs")
+	}
+}
+
 func (rn *runner) corpus() {
+	rn.corpusZeroGauges()
+	if rn.dead {
+		rn.dead = false
+	}
 	rn.corpusParams()
 	if rn.dead {
 		rn.dead = false
